@@ -116,7 +116,7 @@ N_RING_SET = 10                      # destination points of S are placed around
 S_SEPS = [2e-07, 1e-04, 0.01, 1.0]
 S_BEARINGS = [0.0, 90.0, 200.0]
 
-RADII = [0.0, 1e-06, 1.5e-04, 0.015, 0.5, 1.5, 30.0, 90.0, 180.0]
+RADII = [0.0, 1e-06, 1e-05, 1.5e-04, 0.015, 0.5, 1.5, 30.0, 90.0, 180.0]
 RADII_RINGS = [0.0, 1e-06, 1e-05, 1.5e-04, 0.015, 0.5, 1.5, 30.0, 90.0, 135.0, 180.0]
 DEPTHS_Q = [1, 2, 4, 7, 10, 13]
 DEPTHS_T = list(range(1, 14))
@@ -150,8 +150,32 @@ def build_S(gen):
     return tuple(pts), nb
 
 
+GOLDEN = 137.50776405003785      # golden angle, degrees
+EXTRA_SETS = ["sphere", "cap30", "cap1e-4", "polecap", "seamcap"]
+
+
+def sunflower(centre, radius, n):
+    """n points spread evenly (Vogel spiral) over the cap of the given radius around centre"""
+    return tuple(destination(centre[0], centre[1], radius * ((k + 0.5) / n) ** 0.5, (k * GOLDEN) % 360.0)
+                 for k in range(n))
+
+
+@functools.lru_cache(maxsize=64)
 def subset(name, gen):
-    """tuple of points of the named subset of S (order and repetitions are part of the subset)"""
+    """tuple of points of the named set: a subset of S (order and repetitions are part of the subset)
+    or one of the spread-out sets (quasi-uniform sphere, caps of 30 / 0.01 / 1e-4 degrees)"""
+    if name == "sphere":
+        n = 96
+        return tuple((round((k * GOLDEN) % 360.0, 9),
+                      round(float(np.rad2deg(np.arcsin(1.0 - (2 * k + 1.0) / n))), 9)) for k in range(n))
+    if name == "cap30":
+        return sunflower(gen[0], 30.0, 64)
+    if name == "cap1e-4":
+        return sunflower(gen[1], 1e-04, 48)
+    if name == "polecap":
+        return sunflower((0.0, 90.0), 0.01, 48)
+    if name == "seamcap":
+        return sunflower((0.0, -30.0), 1.0, 48)
     S, nb = build_S(gen)
     n = len(S)
     i10 = CENTRES.index((10.0, 20.0))
@@ -278,77 +302,87 @@ def got_matrix(res, shape):
 
 
 def verify(res, T, mm):
-    """None when the (m1, m2, d12) result satisfies the property for configuration T, else a message"""
+    """all the ways in which the (m1, m2, d12) result violates the property for configuration T:
+    list of (kind, message), one entry per sub-claim (empty = holds)"""
     if not (isinstance(res, tuple) and len(res) == 3):
-        return "result is not a (m1, m2, d12) triple: %r" % (res,)
+        return [("shape", "result is not a (m1, m2, d12) triple: %r" % (res,))]
     m1, m2, d = res
-    for nm, a, kind in (("m1", m1, "i"), ("m2", m2, "i"), ("d12", d, "f")):
-        if not (isinstance(a, np.ndarray) and a.ndim == 1 and a.dtype.kind == kind and a.dtype.itemsize == 8):
-            return "result %s is not a 1-d array of 8-byte %s: %r" % (nm, "integers" if kind == "i" else "floats", a)
+    for nm, a, kind in (("m1", m1, "iu"), ("m2", m2, "iu"), ("d12", d, "f")):
+        if not (isinstance(a, np.ndarray) and a.ndim == 1 and a.dtype.kind in kind):
+            return [("shape", "result %s is not a 1-d array of %s: %r"
+                     % (nm, "integers" if "i" in kind else "floats", a))]
     if not (m1.size == m2.size == d.size):
-        return "result arrays differ in length: %d, %d, %d" % (m1.size, m2.size, d.size)
+        return [("shape", "result arrays differ in length: %d, %d, %d" % (m1.size, m2.size, d.size))]
     n1, n2 = T.D.shape
     if m1.size and (m1.min() < 0 or m1.max() >= n1 or m2.min() < 0 or m2.max() >= n2):
-        return "result index out of range: m1 in [%d,%d], m2 in [%d,%d] for set sizes %d, %d" % (
-            m1.min(), m1.max(), m2.min(), m2.max(), n1, n2)
+        return [("range", "result index out of range: m1 in [%d,%d], m2 in [%d,%d] for set sizes %d, %d" % (
+            m1.min(), m1.max(), m2.min(), m2.max(), n1, n2))]
+    out = []
     if not np.all(np.isfinite(d)):
         k = int(np.flatnonzero(~np.isfinite(d))[0])
-        return "reported distance is not finite: %r for %s" % (float(d[k]), T.pair(int(m1[k]), int(m2[k])))
+        out.append(("finite", "reported distance is not finite: %r for %s"
+                    % (float(d[k]), T.pair(int(m1[k]), int(m2[k])))))
     step = np.diff(m1)
     if np.any(step < 0):
         k = int(np.flatnonzero(step < 0)[0])
-        return "groups are not in input order of the first set: first-set index %d follows %d" % (m1[k + 1], m1[k])
-    dd = np.diff(d)
-    bad = (step == 0) & (dd < 0)
+        out.append(("group-order", "groups are not in input order of the first set: first-set index %d follows %d"
+                    % (m1[k + 1], m1[k])))
+    bad = (step == 0) & ~(np.diff(d) >= 0)
     if np.any(bad):
         k = int(np.flatnonzero(bad)[0])
-        return "reported distances decrease within a group: %r then %r in the group of first-set point %d" % (
-            float(d[k]), float(d[k + 1]), m1[k])
+        out.append(("sorted", "reported distances decrease within a group: %r then %r in the group of first-set point %d"
+                    % (float(d[k]), float(d[k + 1]), m1[k])))
     g = got_matrix(res, T.D.shape)
     if g.size and g.max() > 1:
         i, j = [int(v[0]) for v in np.nonzero(g > 1)]
-        return "pair returned %d times: %s" % (g[i, j], T.pair(i, j))
+        out.append(("once", "pair returned %d times: %s" % (g[i, j], T.pair(i, j))))
     got = g.astype(bool)
     extra = got & ~T.may
     if extra.any():
-        i, j = [int(v[0]) for v in np.nonzero(extra)]
-        if T.r[i] == 0:
-            return "radius zero matched two distinct points: %s" % T.pair(i, j)
-        return "extra pair returned, separation beyond radius + margin: %s" % T.pair(i, j)
+        zero = extra & (T.r == 0)[:, None]
+        if zero.any():
+            i, j = [int(v[0]) for v in np.nonzero(zero)]
+            out.append(("extra-r0", "radius zero matched two distinct points: %s" % T.pair(i, j)))
+        pos = extra & ~zero
+        if pos.any():
+            i, j = [int(v[0]) for v in np.nonzero(pos)]
+            out.append(("extra", "extra pair returned, separation beyond radius + margin: %s" % T.pair(i, j)))
     true = T.D[m1, m2]
     err = np.abs(d - true)
     if np.any(err > DTOL):
-        k = int(np.argmax(err))
-        return "reported distance %r differs from the true separation by %.3g deg: %s" % (
-            float(d[k]), float(err[k]), T.pair(int(m1[k]), int(m2[k])))
+        k = int(np.argmax(np.where(np.isfinite(err), err, np.inf)))
+        out.append(("distance", "reported distance %r differs from the true separation by %.3g deg: %s" % (
+            float(d[k]), float(err[k]), T.pair(int(m1[k]), int(m2[k])))))
     nz = T.ident[m1, m2] & (d != 0)
     if np.any(nz):
         k = int(np.flatnonzero(nz)[0])
-        return "identical points matched at non-zero distance %r: %s" % (float(d[k]), T.pair(int(m1[k]), int(m2[k])))
+        out.append(("identical-distance", "identical points matched at non-zero distance %r: %s"
+                    % (float(d[k]), T.pair(int(m1[k]), int(m2[k])))))
     miss = T.must & ~got
     if mm <= 0:
-        if miss.any():
-            i, j = [int(v[0]) for v in np.nonzero(miss)]
-            if T.ident[i, j]:
-                return "identical points not matched: %s" % T.pair(i, j)
-            return "missing pair, separation within radius - margin: %s" % T.pair(i, j)
-        return None
+        if (miss & T.ident).any():
+            i, j = [int(v[0]) for v in np.nonzero(miss & T.ident)]
+            out.append(("identical-missing", "identical points not matched: %s" % T.pair(i, j)))
+        if (miss & ~T.ident).any():
+            i, j = [int(v[0]) for v in np.nonzero(miss & ~T.ident)]
+            out.append(("missing", "missing pair, separation within radius - margin: %s" % T.pair(i, j)))
+        return out
     cnt = got.sum(axis=1)
     if np.any(cnt > mm):
         i = int(np.flatnonzero(cnt > mm)[0])
-        return "maxmatch=%d but %d pairs returned for first-set point %d" % (mm, cnt[i], i)
+        out.append(("k-count", "maxmatch=%d but %d pairs returned for first-set point %d" % (mm, cnt[i], i)))
     short = miss & (cnt < mm)[:, None]
     if short.any():
         i, j = [int(v[0]) for v in np.nonzero(short)]
-        return "maxmatch=%d, only %d pairs returned for the group although another pair is within the radius: %s" % (
-            mm, cnt[i], T.pair(i, j))
+        out.append(("k-short", "maxmatch=%d, only %d pairs returned for the group although another pair is within "
+                    "the radius: %s" % (mm, cnt[i], T.pair(i, j))))
     far = np.where(got, T.D, -np.inf).max(axis=1) if n2 else np.zeros(n1)
     closer = miss & (T.D < far[:, None] - DTOL)
     if closer.any():
         i, j = [int(v[0]) for v in np.nonzero(closer)]
-        return "maxmatch=%d did not keep the closest pairs: farthest returned separation %r deg, omitted %s" % (
-            mm, float(far[i]), T.pair(i, j))
-    return None
+        out.append(("k-closest", "maxmatch=%d did not keep the closest pairs: farthest returned separation %r deg, "
+                    "omitted %s" % (mm, float(far[i]), T.pair(i, j))))
+    return out
 
 
 def same_pairs(resf, resm):
@@ -425,51 +459,59 @@ def main(ctx):
             out = htm.Matcher(depth, ra2, dec2).match(ra1, dec1, rad, maxmatch=mm, **kw)
         if not tofile:
             return out, 1
-        return read_back(out, fn, route), 2
+        return read_back(out, fn), 2
 
-    def read_back(count, fn, route):
+    def read_back(count, fn):
         if isinstance(count, bool) or not isinstance(count, (int, np.integer)):
-            raise _Fail("%s: match(file=) did not return the pair count: %r" % (route, count))
+            raise _Fail("file-count", "match(file=) did not return the pair count: %r" % (count,))
         if not os.path.exists(fn):
-            raise _Fail("%s: match(file=) did not create the pair file" % route)
+            raise _Fail("file-missing", "match(file=) did not create the pair file")
         try:
             p = htm.read_pairs(fn)
         except Exception as e:
-            raise _Fail("%s: read_pairs raised %s on a pair file with %s pairs: %s"
-                        % (route, type(e).__name__, "no" if count == 0 else "some", e))
+            if count == 0:
+                raise _Fail("file-empty", "read_pairs raised %s on the pair file of a match without pairs: %s"
+                            % (type(e).__name__, e))
+            raise _Fail("file-read", "read_pairs raised %s on a pair file with %d pairs: %s"
+                        % (type(e).__name__, count, e))
         if not (isinstance(p, np.ndarray) and p.ndim == 1 and p.dtype.names == ("i1", "i2", "d12")):
-            raise _Fail("%s: read_pairs did not return a 1-d (i1, i2, d12) table: %r" % (route, p))
+            raise _Fail("file-table", "read_pairs did not return a 1-d (i1, i2, d12) table: %r" % (p,))
         if p.size != count:
-            raise _Fail("%s: match(file=) returned count %d but the file holds %d pairs" % (route, count, p.size))
+            raise _Fail("file-count", "match(file=) returned count %d but the file holds %d pairs" % (count, p.size))
         return (np.ascontiguousarray(p["i1"]), np.ascontiguousarray(p["i2"]), np.ascontiguousarray(p["d12"]))
 
     def run_routes(case, rec, T, depth, c1, c2, rad, mm, routes):
-        """all routes of one configuration against brute force; returns number of calls or None after rec.fail"""
+        """all routes of one configuration against brute force.  Every violated sub-claim is reported
+        (once per case, for the first route that shows it); returns the number of esutil calls, or
+        None when something was reported"""
         fn = os.path.join(rec.tmp, "c12.pairs")
         ncall = 0
         res = {}
+        seen = set()
+
+        def report(route, kind, msg):
+            if kind not in seen:
+                seen.add(kind)
+                rec.fail(case, "%s [route %s, depth %d, maxmatch %d]" % (msg, route, depth, mm))
+
         for route in routes:
             try:
                 res[route], k = call(route, depth, c1, c2, rad, mm, fn)
             except _Fail as e:
-                rec.fail(case, str(e))
-                return None
+                report(route, e.kind, str(e))
+                continue
             except Exception as e:
-                rec.fail(case, "%s raised %s: %s" % (route, type(e).__name__, e))
-                return None
+                report(route, "raised", "match raised %s: %s" % (type(e).__name__, e))
+                continue
             ncall += k
-            msg = verify(res[route], T, mm)
-            if msg:
-                rec.fail(case, "%s depth %d maxmatch %d: %s" % (route, depth, mm, msg))
-                return None
-            if route.endswith("file"):
-                twin = route.replace("file", "mem")
-                if twin in res:
-                    msg = same_pairs(res[route], res[twin])
-                    if msg:
-                        rec.fail(case, "%s vs %s: %s" % (route, twin, msg))
-                        return None
-        return ncall
+            for kind, msg in verify(res[route], T, mm):
+                report(route, kind, msg)
+            twin = route.replace("file", "mem")
+            if twin != route and twin in res:
+                msg = same_pairs(res[route], res[twin])
+                if msg:
+                    report(route, "file-vs-memory", "file route differs from the in-memory call: " + msg)
+        return None if seen else ncall
 
     # ------------------------------------------------------------------ rings
     def ring_points(centre, r, nbear):
@@ -548,7 +590,8 @@ def main(ctx):
                nontrivial=bool(T.n_must > 0 and T.n_forbidden > 0), calls=n)
 
     pairs_q = [("all", "all", "native")] + [("all", s, "native") for s in SUBSETS if s not in ("all", "reversed")] + [
-        ("polar", "seam", "native"),        # disjoint, far apart: no pair at small radii (empty pair file)
+        ("polar", "dups", "native"),        # disjoint, far apart: no pair at small radii (empty pair file)
+        ("dups", "polar", "native"),
         ("bases", "dests", "native"),
         ("single", "all", "scalar"),
         ("reversed", "scrambled", "native"),
@@ -557,6 +600,11 @@ def main(ctx):
         ("head", "all", "strided"),
         ("tail", "even", "negstride"),
         ("seam", "north", "list"),
+        ("sphere", "sphere", "native"),     # quasi-uniform on the sphere, self-match
+        ("cap30", "sphere", "native"),
+        ("cap1e-4", "cap1e-4", "native"),   # clustered: 48 points within 1e-4 deg of a generic point
+        ("polecap", "polecap", "native"),   # 48 points within 0.01 deg of the north pole
+        ("seamcap", "seamcap", "native"),   # 48 points within 1 deg of (0, -30), straddling ra = 0/360
     ]
     pairs_t = pairs_q + [(s, "all", "native") for s in SUBSETS if s not in ("all", "single")] + [
         ("all", "all", "swapped"), ("all", "all", "strided"), ("all", "all", "negstride"),
@@ -564,6 +612,8 @@ def main(ctx):
         ("all", "single", "scalar"), ("single", "single", "scalar"),
         ("even", "odd", "native"), ("north", "south", "native"), ("seam", "polar", "native"),
         ("dests", "bases", "swapped-strided"), ("scrambled", "reversed", "list"),
+        ("sphere", "cap30", "native"), ("all", "sphere", "native"), ("polecap", "all", "native"),
+        ("all", "cap1e-4", "native"), ("seamcap", "all", "strided"), ("sphere", "sphere", "swapped"),
     ]
     set_pairs = ctx.pick(pairs_q, pairs_t)
     set_depths = ctx.pick(DEPTHS_Q, DEPTHS_T)
@@ -615,7 +665,7 @@ def main(ctx):
             if os.path.exists(fn):
                 os.unlink(fn)
             cnt = M.match(ra1, dec1, rad, maxmatch=mm, file=fn)
-            return read_back(cnt, fn, "Matcher.match(file=)"), p1, radius_values(radspec, len(p1)), mm
+            return read_back(cnt, fn), p1, radius_values(radspec, len(p1)), mm
         return M.match(ra1, dec1, rad, maxmatch=mm), p1, radius_values(radspec, len(p1)), mm
 
     def execute(hist, rec):
@@ -645,9 +695,10 @@ def main(ctx):
                             rec.fail(hist, "event %d: the result of %r after the history differs from the same call "
                                      "on a fresh Matcher (%d vs %d pairs)" % (pos, ev, res[0].size, fresh[0].size))
                             return None
-                        msg = verify(res, Truth(p1, p2, rvec), mm)
-                        if msg:
+                        bad = verify(res, Truth(p1, p2, rvec), mm)
+                        for kind, msg in bad:
                             rec.fail(hist, "event %d: %s" % (pos, msg))
+                        if bad:
                             return None
                 else:
                     _, d2, o2, o1, r, mm = ev
@@ -658,9 +709,10 @@ def main(ctx):
                     res = htm.Matcher(d2, a2, b2).match(a1, b1, r, maxmatch=mm)
                     rec.count("other_matcher_calls")
                     if last:
-                        msg = verify(res, Truth(q1, q2, np.full(len(q1), r)), mm)
-                        if msg:
-                            rec.fail(hist, "event %d (second Matcher): %s" % (pos, msg))
+                        bad = verify(res, Truth(q1, q2, np.full(len(q1), r)), mm)
+                        for kind, msg in bad:
+                            rec.fail(hist, "event %d, second Matcher: %s" % (pos, msg))
+                        if bad:
                             return None
             except _Fail as e:
                 rec.fail(hist, "event %d: %s" % (pos, e))
@@ -681,12 +733,16 @@ def main(ctx):
         return fingerprint((M.get_depth(), [a.tolist() for a in probe])), H_EVENTS
 
     hdepth = 1 + ctx.pick(3, 4)
-    roots = [(("new", 8, "all", gen),), (("new", 4, "scrambled", gen),)]
+    roots = [(("new", 8, "all", gen),), (("new", 4, "scrambled", gen),), (("new", 10, "dups", gen),)]
     ctx.histories("histories", roots, execute, depth=hdepth, nodedup_depth=hdepth - 1,
-                  bounds=dict(matcher=["depth 8 on S", "depth 4 on S scrambled"], calls_max=hdepth - 1,
+                  bounds=dict(matcher=["depth 8 on S", "depth 4 on S scrambled", "depth 10 on the 'dups' subset"], calls_max=hdepth - 1,
                               events=[repr(e) for e in H_EVENTS],
                               key="fingerprint of (depth, result of a fixed probe match)"))
 
 
 class _Fail(Exception):
     """a route misbehaved in a way that is itself a violation"""
+
+    def __init__(self, kind, msg):
+        Exception.__init__(self, msg)
+        self.kind = kind
